@@ -5,7 +5,7 @@
    in-memory index) dropped, then ContinuityStore::new;  `run_ops fixed … base more` = ANY further operations.
    `env_runb` = the environment's part (fresh UUIDs: a thread id chosen for creation is not in the log, a
    session whose counter is not in memory is new).  `fixed` = /repo with the two repairs (bd2ee56, 0b0d2b0). *)
-From RipV Require Import Base.Prelude Model.Crash Proofs.CrashProofs Proofs.CrashCacheProofs Proofs.CrashIndexProofs Proofs.CrashArtifactProofs Proofs.CrashRoundsProofs Gen.CrashEffects Proofs.CrashGenProofs.
+From RipV Require Import Base.Prelude Model.CrashCold Model.Crash Proofs.CrashProofs Proofs.CrashCacheProofs Proofs.CrashIndexProofs Proofs.CrashArtifactProofs Proofs.CrashRoundsProofs Proofs.CrashColdProofs Gen.CrashEffects Proofs.CrashGenProofs.
 
 (* whole store replays, every stream 0,1,2,.., whole lines only *)
 Theorem c05_recover_valid : forall (hist : list op) (k : nat) (base : N) (more : list op),
@@ -330,3 +330,43 @@ Theorem c05_recover_valid_generated : forall (hist : list op) (k : nat) (base : 
                                exists rest, stream (2 * c) fs = evs ++ rest).
 Proof. exact recover_valid_generated. Qed.
 Print Assumptions c05_recover_valid_generated.
+
+(* ---- the first append of EVERY writer after a restart (Model/CrashCold.v).  A restart forgets every in-memory
+   counter; each writer has its own `None => ..` arm that finds the seq on disk.  One thread's stream at the level of
+   seq numbers: log, full sidecar (written after the log: it lags by the frame of a call that died in between),
+   counter; `srcs w` = where writer w takes its cold-start seq from.  When every writer that appends takes it from
+   the log (load_next_seq_for as repaired in /repo 0b0d2b0), then after ANY sequence of complete appends, appends that
+   die between their log flush and their sidecar write (+ restart) and clean restarts, by ANY writers: the stream is
+   0,1,2,.., the sidecar is a prefix of it, and whenever a counter is in memory it is the stream's length and the
+   sidecar is the whole stream *)
+Theorem c05_cold_start_numbered : forall (srcs : nat -> src) (es : list ev),
+  (forall w, In w (writers es) -> srcs w = FromLog) ->
+  numbered_b (c_log (CrashCold.run srcs created es)) = true
+  /\ (exists k, c_side (CrashCold.run srcs created es) = firstn k (c_log (CrashCold.run srcs created es)))
+  /\ (forall m, c_ctr (CrashCold.run srcs created es) = Some m ->
+        m = N.of_nat (length (c_log (CrashCold.run srcs created es)))
+        /\ c_side (CrashCold.run srcs created es) = c_log (CrashCold.run srcs created es)).
+Proof. exact cold_start_numbered. Qed.
+Print Assumptions c05_cold_start_numbered.
+
+(* .. over the sources READ FROM THE CODE in this run (Gen/CrashEffects.v gen_cold_start: per locked append, is
+   load_next_seq_for the only source of a seq in the `None =>` arm of `match next_seq.get(..)`), writers 0..10 *)
+Theorem c05_cold_start_generated : forall es : list ev,
+  (forall w, In w (writers es) -> (w < 11)%nat) ->
+  numbered_b (c_log (CrashCold.run (srcs_of gen_cold_start) created es)) = true.
+Proof. exact cold_start_generated. Qed.
+Print Assumptions c05_cold_start_generated.
+
+(* ONE writer that trusts the sidecar's tail (seed C05-11: append_compaction_checkpoint_created through
+   try_read_last_seq) breaks it, all others numbering from the log: append, an append that dies after its log flush,
+   restart, the sidecar-tail writer first: seq 2 is issued twice *)
+Theorem c05_cold_start_side_tail_refuted : exists (srcs : nat -> src) (es : list ev),
+  (forall w, w <> 1%nat -> srcs w = FromLog) /\ numbered_b (c_log (CrashCold.run srcs created es)) = false.
+Proof. exact cold_start_side_tail_refuted. Qed.
+Print Assumptions c05_cold_start_side_tail_refuted.
+
+Example c05_cold_start_nonvacuous :
+  c_log (CrashCold.run (fun _ => FromLog) created [EAppend 0; ECrashMid 3; EAppend 7; ERestart; EAppend 10]) = [0; 1; 2; 3; 4]
+  /\ c_side (CrashCold.run (fun _ => FromLog) created [EAppend 0; ECrashMid 3]) = [0; 1].
+Proof. exact cold_start_example. Qed.
+Print Assumptions c05_cold_start_nonvacuous.
